@@ -5,13 +5,16 @@
 cd /verif
 if [ -n "$(git -C /repo status --porcelain)" ]; then echo "refusing: /repo has uncommitted changes"; exit 4; fi
 fail=0
-while read -r id want; do
-  [ -z "$id" ] && continue
-  out=$(tools/seedtest.sh $id seeded/$id/patch.diff 2>&1)
-  n=$(echo "$out" | grep -c '^VIOLATION')
-  got=missed; [ "$n" -gt 0 ] && got=caught
-  status=ok; [ "$got" != "$want" ] && { status=MISMATCH; fail=1; }
-  echo "$id expected=$want got=$got ($n violation lines) $status"
-done < seeded/EXPECTED
+for dir in seeded seeded2; do
+  [ -f $dir/EXPECTED ] || continue
+  while read -r id want; do
+    [ -z "$id" ] && continue
+    out=$(tools/seedtest.sh $id $dir/$id/patch.diff 2>&1)
+    n=$(echo "$out" | grep -c '^VIOLATION')
+    got=missed; [ "$n" -gt 0 ] && got=caught
+    status=ok; [ "$got" != "$want" ] && { status=MISMATCH; fail=1; }
+    echo "$dir/$id expected=$want got=$got ($n violation lines) $status"
+  done < $dir/EXPECTED
+done
 # the unchanged tree must be quiet
 exit $fail
